@@ -16,9 +16,33 @@ class ConcGen:
         self.used = {}
 
     def _get(self, name, default):
-        v = self.model.get(name, default)
+        if name in self.model:
+            v = self.model[name]
+        else:
+            v = default
+            # element of an instantiated opaque list: take the verifier's generic element "x:<loop tag>.<suffix>"
+            parts = name.split(".")
+            for cut in range(1, len(parts)):
+                suffix = ".".join(parts[cut:])
+                cands = [k for k in self.model if k.startswith("x:") and k.endswith("." + suffix)]
+                if cands and parts[cut - 1].isdigit() and int(parts[cut - 1]) == self.generic_index:
+                    v = self.model[sorted(cands)[0]]
+                    break
         self.used[name] = v
         return v
+
+    generic_index = 0
+
+    def exactly_one(self, flags):
+        vals = [bool(self._get(f, False)) for f in flags]
+        if sum(vals) != 1:
+            for f in flags:
+                self.model[f] = False
+            pick = flags[[i for i, v in enumerate(vals) if v][0]] if any(vals) else flags[0]
+            self.model[pick] = True
+
+    def assume(self, cond):
+        return None
 
     def str(self, name, pattern=None, default="x"):
         return self._get(name, default)
@@ -83,6 +107,14 @@ def make_symgen():
             self.I = interp
             self.ctx = interp.ctx
             self.names = []
+            self.elem_builders = {}
+
+        def exactly_one(self, flags):
+            bs = [z3.Bool(f) for f in flags]
+            self.ctx.assume(z3.Or(*bs))
+            for i in range(len(bs)):
+                for j in range(i + 1, len(bs)):
+                    self.ctx.assume(z3.Or(z3.Not(bs[i]), z3.Not(bs[j])))
 
         def str(self, name, pattern=None, default="x"):
             t = z3.String(name)
@@ -130,6 +162,8 @@ def make_symgen():
             if min_len:
                 self.ctx.assume(self.I.seq_len_term(("base", name)) >= min_len)
             self.ctx.assume(self.I.seq_len_term(("base", name)) >= 0)
+            if elem is not None:
+                self.elem_builders[name] = elem
             return OSeq([("o", ("base", name))] + [("i", x) for x in items])
 
         def obj(self, cls=None, **attrs):
